@@ -17,7 +17,7 @@ func init() {
 		Technique: "runtime monitor: metamorphic equality between a require-order execution of P ++ s ++ T and an execution of P without require-order (real Parse + Dispatch both sides), fold anchor on P",
 		Rule: "case = P (known options with values of all kinds incl. optional-with-value and multi-value, command tokens; last item closed or open) ++ stop token s (positional, unknown long/short option, `-`, hostile plain text, empty string) ++ hostile tail T (the program's own option names, ambiguous prefixes, malformed values, `--`, command names); " +
 			"all single-dash and unknown modes; distinct = (modes, stop kind, item shapes, tail length); non-trivial = T contains at least one token that would be interpreted without the stop" + genDims,
-		Cases: func(tier string) int { return tierN(tier, 20000, 2500000) },
+		Cases: func(tier string) int { return tierN(tier, 60000, 2500000) },
 		Run: func(seed uint64, idx int, tier string) *fw.Result {
 			r := CaseRng(seed, "C09", idx)
 			stopKind := c09Stops[idx%len(c09Stops)]
